@@ -166,6 +166,22 @@ func main() {
 					}
 				}
 			}
+			if si == 2 { // messages one of whose signing attempts sits exactly on the boundary of one rejection test (found by search)
+				for _, kind := range []string{"z", "r0", "h=", "h+"} {
+					msg := ref.BoundaryMessage(kind, vlib.Bytes(rng, 12), 6000)
+					if msg == nil {
+						continue
+					}
+					refSig, _ := ref.Sign(p.MPrime(msg, nil), mldsaref.SignOpts{})
+					l := line{Ev: "sign", Param: p.Name, Class: "boundary " + kind, RefSig: vlib.Hex(refSig), Seed: vlib.Hex(sd), Msg: vlib.Hex(msg), Ctx: ""}
+					oc := vlib.Safe(120*time.Second, func() { l.Sig = vlib.Hex(sch.Sign(sk, msg, opts(nil))) })
+					if oc.Bad() {
+						l.Panics, l.Note = 1, oc.Panic
+					}
+					emit(l)
+					verifyLine("honest boundary "+kind, ref.Pk, msg, nil, refSig)
+				}
+			}
 			if si > 2 && !*thorough {
 				continue
 			}
